@@ -2,7 +2,7 @@
 
 use crate::alloc::{self, set_track};
 use crate::case::{Adapt, Case, Op, OpKind, Owner, Src, Take, NSLOTS};
-use crate::elem::{CElem, Elem, Payload, Probe, ProbeCore, RefProbe};
+use crate::elem::{CElem, Elem, Payload, Probe, ProbeCore, RefProbe, ZElem};
 use crate::rt::{self, AbortToken, ClonePanic, ClosurePanic, DropPanic, ProbePanic};
 use crate::tlog;
 use orx_concurrent_iter::iter::atomic_iter::AtomicIter;
@@ -645,6 +645,14 @@ fn elems(vals: &[u64]) -> Vec<Elem> {
     v
 }
 
+fn zelems(vals: &[u64]) -> Vec<ZElem> {
+    let mut v = Vec::with_capacity(vals.len());
+    for _ in vals {
+        v.push(ZElem);
+    }
+    v
+}
+
 fn celems(vals: &[u64]) -> Vec<CElem> {
     vals.iter().map(|x| CElem(*x)).collect()
 }
@@ -661,6 +669,36 @@ fn script_vals(script: &[crate::case::Entry]) -> Vec<u64> {
 
 /// Runs one case; the trace block (without the `case` line) is written to the out file.
 pub fn run_case(case: &Case) {
+    if case.zst {
+        // zero-sized elements: pointer arithmetic on them never moves (`ptr.add(i) == ptr`)
+        match &case.src {
+            Src::Slice(vals) => {
+                let b = zelems(vals);
+                run_generic(case, false, &mut || {
+                    IntoConcurrentIter::into_con_iter(b.as_slice())
+                });
+            }
+            Src::Vec(vals) => {
+                let mut once = Some(vals);
+                run_generic(case, false, &mut || {
+                    let vals = once.take().expect("vec kinds have one slot");
+                    IntoConcurrentIter::into_con_iter(zelems(vals))
+                });
+            }
+            Src::Array(vals) => with_array!(zelems(vals), arr, {
+                let mut once = Some(arr);
+                run_generic(case, false, &mut || {
+                    let arr = once.take().expect("array kinds have one slot");
+                    IntoConcurrentIter::into_con_iter(arr)
+                });
+            }),
+            _ => {
+                eprintln!("orx-harness: case {}: zst applies to slice, vec, array only", case.id);
+                std::process::exit(2);
+            }
+        }
+        return;
+    }
     match (&case.src, case.adapt) {
         // ---- slice
         (Src::Slice(vals), Adapt::None) => {
